@@ -381,7 +381,15 @@ def main(prop):
 
         def still(c):
             return any(x['signature'] == sig for x in prop.oracle(c, prop.run_impl(c)))
-        small = shrink(prop, r['case'], still)
+        start = r['case']
+        if hasattr(prop, 'explicit'):
+            try:
+                cand = prop.explicit(r['case'], r['obs'])
+                if still(cand):
+                    start = cand
+            except Exception:
+                pass
+        small = shrink(prop, start, still)
         obs = prop.run_impl(small)
         path = write_replay(prop.id, {'property': prop.id, 'kind': 'failing-input', 'signature': sig,
                                       'what': o['what'], 'case': small, 'observation': obs,
